@@ -232,7 +232,7 @@ func init() {
 							}
 							l := []TV{mk(r.I64(11, 40)), mk(r.I64(5, 15)), mk(r.I64(16, 30)), mk(r.I64(5, 10))}
 							l = append(l, l[1])
-							q.A = setAssign(setAssign(q.A, 6, tvSlice("[]string", tvStr("zz"), tvStr("a red"), tvStr("b"))), 7, tvSlice(t, l...))
+							q.A = setAssign(setAssign(q.A, 6, pick(r, []TV{tvSlice("[]string", tvStr("zz"), tvStr("a red"), tvStr("b")), tvSlice("[]string", tvStr(""), tvStr("a red"), tvStr("b")), tvSlice("[]string", tvStr(""), tvStr(""), tvStr("red"))})), 7, tvSlice(t, l...))
 						}
 						c.Queries = append(c.Queries, q)
 					}
